@@ -61,6 +61,10 @@ static UNIVERSE: Lazy<Vec<String>> = Lazy::new(|| {
     "did:bar:2".into(),
     "did:qux:1".into(),     // `qux` has a handler whose DID type (DIDJwk) cannot represent it
     "did:foo:bar:1".into(), // method `foo`, method-specific id `bar:1`
+    // single resolution only: methods that extend / are a prefix of / contain a registered method name
+    "did:foob:1".into(),
+    "did:fo:1".into(),
+    "did:barfoo:1".into(),
   ]
 });
 static DIDS: Lazy<Vec<CoreDID>> = Lazy::new(|| UNIVERSE.iter().map(|s| CoreDID::parse(s).expect("harness universe DID")).collect());
@@ -897,9 +901,6 @@ fn jwk_body(ctx: &Ctx, wide: bool, ch: &mut Chooser) {
   if outcome == "expanded" {
     ctx.distinct(&("jwk", &inp.text, route));
   }
-  if route == 3 && inp.extra == 0 {
-    ctx.sample("did:jwk", &case);
-  }
 }
 
 /// Method-specific ids that do not encode a JWK: no unwinding on any route (outcomes recorded, not judged).
@@ -939,6 +940,27 @@ fn eval_raw(ctx: &Ctx, payload: u8, case: &Case) {
 
 // ------------------------------------------------------------------ driver
 
+/// `resolve_multiple` pushes its futures in the iteration order of a `HashSet` with std's `RandomState`, which nothing
+/// outside std can control. That order decides nothing but the order of the FIRST poll: it is invisible for gated
+/// handlers (all of them register their first gate before any gate is opened) and it is the completion order of the
+/// futures that are ready at their first poll (unsupported method, unparsable DID, did:jwk, failure before any gate).
+/// On a tree where the verdict of such a list depended on it, a single re-execution might not reproduce a violation;
+/// REPLAYS (never the exploration) therefore re-execute such a case this many times (each `HashSet` gets fresh keys)
+/// and report the union, so that a replay verdict is reproducible. The controllable twins of those cases (failure after
+/// a gate, success after a gate) are enumerated exhaustively by the exploration itself.
+fn replay_repeats(cfg: &Cfg, list: &[u8]) -> usize {
+  let distinct: BTreeSet<u8> = list.iter().copied().collect();
+  let immediate = distinct.iter().any(|i| match expect(cfg, uni(*i)) {
+    Exp::Unsupported(_) | Exp::Unparsable | Exp::Jwk => true,
+    Exp::Handler { fails, .. } => fails && cfg.fail_at == Some(0),
+  });
+  if distinct.len() >= 2 && immediate {
+    256
+  } else {
+    1
+  }
+}
+
 fn eval(ctx: &Ctx, case: &Case) {
   match case {
     Case::Single { flavour, cfg, did } => {
@@ -951,15 +973,22 @@ fn eval(ctx: &Ctx, case: &Case) {
       }
     }
     Case::Schedule { flavour, cfg, list, seq } => {
-      ctx.eval1();
       let distinct: BTreeSet<u8> = list.iter().copied().collect();
-      let singles: BTreeMap<u8, Exec<String>> = distinct.iter().map(|i| (*i, run_single(*flavour, cfg, *i))).collect();
-      let mut ch = Chooser::replay(seq);
-      let ex = run_multi(*flavour, cfg, list, &mut ch);
-      let j = judge_multi(ctx, *flavour, cfg, list, &ch.seq(), &ex, &singles);
-      ctx.outcome(&j.label);
+      let mut label = String::new();
+      for _ in 0..replay_repeats(cfg, list) {
+        ctx.eval1();
+        let singles: BTreeMap<u8, Exec<String>> = distinct.iter().map(|i| (*i, run_single(*flavour, cfg, *i))).collect();
+        let mut ch = Chooser::replay(seq);
+        let ex = run_multi(*flavour, cfg, list, &mut ch);
+        label = judge_multi(ctx, *flavour, cfg, list, &ch.seq(), &ex, &singles).label;
+      }
+      ctx.outcome(&label);
     }
-    Case::List { flavour, cfg, list } => eval_list(ctx, *flavour, cfg, list),
+    Case::List { flavour, cfg, list } => {
+      for _ in 0..replay_repeats(cfg, list) {
+        eval_list(ctx, *flavour, cfg, list)
+      }
+    }
     Case::Jwk { wide, seq } => {
       ctx.eval1();
       jwk_body(ctx, *wide, &mut Chooser::replay(seq))
@@ -1010,6 +1039,7 @@ fn generate(ctx: &Ctx) {
      exploration opened at least one gate + distinct single resolutions that reach a handler + distinct (JWK text, route) that expand",
   );
   ctx.assume("the gate executor polls the root future on one thread; handlers that spawn onto other threads or use real timers/IO are outside the explored space");
+  ctx.assume("the order in which resolve_multiple first polls its futures is the iteration order of a std HashSet (RandomState) and cannot be controlled from outside: for futures that are ready at their first poll (unsupported method, unparsable DID, did:jwk, failure before any gate) the completion order is whatever that order is in the execution at hand; their gated twins (failure / success after a gate) are enumerated exhaustively. Verdicts on the explored tree do not depend on it; replays of such cases are repeated 256 times");
   ctx.assume("serde_json is trusted to parse the harness's own JWK text; base64url of the did:jwk identifiers is the harness's own encoder");
   ctx.assume("the harness handlers are the only source of asynchrony: every suspension point of a handler is a named gate, so all completion orders and all interleavings of 1- and 2-step handlers are enumerated");
 
@@ -1025,6 +1055,7 @@ fn generate(ctx: &Ctx) {
   let universe: Vec<u8> = ctx.by_tier((0..5).collect(), (0..8).collect());
   let max_len = ctx.by_tier(3, 4);
   ctx.bound("universe", universe.iter().map(|i| uni(*i)).collect::<Vec<_>>());
+  ctx.bound("single_resolution_only", (8..UNIVERSE.len() as u8).map(uni).collect::<Vec<_>>());
   ctx.bound("max_list_len", max_len);
   ctx.bound("handler_tables", tables.len());
   ctx.bound("configurations", cfgs.len());
@@ -1036,7 +1067,7 @@ fn generate(ctx: &Ctx) {
   let mut singles = Vec::new();
   for flavour in 0..2u8 {
     for cfg in &cfgs {
-      for &did in &universe {
+      for did in universe.iter().copied().chain(8..UNIVERSE.len() as u8) {
         singles.push(Case::Single { flavour, cfg: cfg.clone(), did });
       }
     }
@@ -1070,6 +1101,10 @@ fn generate(ctx: &Ctx) {
   // (c)
   let wide = ctx.thorough();
   choice::explore_into(ctx, "did:jwk", None, |ch| jwk_body(ctx, wide, ch));
+  for kty in [0u32, 2, 5] {
+    // three of the explored cases: Ed25519 / P-256 / RSA, no optional member, through SingleThreadedResolver::resolve(&CoreDID)
+    ctx.sample("did:jwk", &Case::Jwk { wide, seq: vec![kty, 0, 0, 0, 0, 0, 0, 0, 0, 0, 0, 0, 3] });
+  }
   let raws: Vec<Case> = (0..RAW.len() as u8).map(|payload| Case::JwkRaw { payload }).collect();
   ctx.sample("did:jwk raw", &raws[5]);
   raws.par_iter().for_each(|c| eval(ctx, c));
